@@ -39,6 +39,38 @@ def ideal(axis, angles):
     return m
 
 
+UNREACHED_JUSTIFIED = {}   # ucr.py: every statement and branch outcome is reached in the quick tier
+
+
+def from_leaves(leaves):
+    """angle list whose fully multiplexed (leaf) angles are `leaves`: inverse of ucr's recursive
+    kron([[.5,.5],[.5,-.5]], I) transform (x1 = m1 + m2, x2 = m1 - m2 at every level)."""
+    if len(leaves) == 1:
+        return list(leaves)
+    h = len(leaves) // 2
+    a, b = from_leaves(leaves[:h]), from_leaves(leaves[h:])
+    return [x + y for x, y in zip(a, b)] + [x - y for x, y in zip(a, b)]
+
+
+def threshold_lists(ctx, k):
+    """leaf angles on both sides of ucr's `abs(angle) > 1e-8` test (2e-9: rotation dropped, 5e-8: kept), mixed
+    with exact zeros and ordinary values; a factor 2.5 away from the threshold, rounding of the transform is ~1e-16"""
+    r = ctx.rng
+    n = 2 ** k
+    out = []
+    for _ in range(2):
+        leaves = [r.choice([0.0, 2e-9, -2e-9, 5e-8, -5e-8, r.uniform(-3, 3)]) for _ in range(n)]
+        if k >= 1:
+            leaves[r.randrange(n)] = r.choice([2e-9, -2e-9])
+            leaves[(r.randrange(n - 1) + 1) % n] = r.choice([5e-8, -5e-8])
+        else:
+            leaves = [r.choice([2e-9, -2e-9, 5e-8, -5e-8])]
+        ctx.count("branch:leaf |angle| in (0, 1e-8] (rotation dropped)", sum(1 for x in leaves if 0 < abs(x) <= 1e-8))
+        ctx.count("branch:leaf |angle| just above 1e-8 (rotation kept)", sum(1 for x in leaves if 1e-8 < abs(x) < 1e-7))
+        out.append(from_leaves(leaves))
+    return out
+
+
 def angle_lists(ctx, k):
     n = 2 ** k
     r = ctx.rng
@@ -50,6 +82,7 @@ def angle_lists(ctx, k):
     fams.append([0.0] * n)
     fams.append([(1.0 if (j >> (k - 1)) & 1 else -1.0) * 0.7 for j in range(n)] if k else [0.3])
     fams.append([2 * math.atan2(4, 3) * r.choice([1, -1, 0, 2]) for _ in range(n)])  # Pythagorean
+    fams += threshold_lists(ctx, k)
     if not ctx.quick:
         for _ in range(4):
             fams.append([r.gauss(0, 3) for _ in range(n)])
